@@ -562,15 +562,15 @@ func (p *Prog) buildSCC() {
 }
 
 func (p *Prog) sameSCC(a, b string) bool {
-	x, ok1 := p.scc[a]
-	y, ok2 := p.scc[b]
+	x, ok1 := p.scc[baseName(a)]
+	y, ok2 := p.scc[baseName(b)]
 	return ok1 && ok2 && x == y
 }
 
 // ---- verification of one function ----
 
 func (p *Prog) verifyFunc(name string) *Exec {
-	fn := p.funcs[name]
+	fn := p.funcs[baseName(name)]
 	c := p.cs.Funcs[name]
 	ex := &Exec{p: p, fn: fn, fname: name, c: c, nameCt: map[string]int{}, entryParams: map[string]*GVal{}, freshRefs: map[*Term]bool{}}
 	ex.entry = &State{cells: map[*Cell]*Term{}, heap: map[string]*Term{}, ghost: map[string]*Term{}}
